@@ -40,6 +40,10 @@ type PropConfig struct {
 	// FrameOnly: further functions of which only the frame.* obligations belong to this
 	// property (their other obligations are decided by the properties that own them)
 	FrameOnly []string `json:"frame_only"`
+	// KeepText: with only_kinds, loop-invariant obligations whose text mentions one of these
+	// strings are kept too (C03 keeps the ownership invariants "own(...)" its frame.append
+	// obligations rest on)
+	KeepText []string `json:"keep_text"`
 }
 
 type KnownFinding struct {
@@ -207,7 +211,8 @@ func checkProperty(e *engine.Engine, verif, id, tier string, seed int, loadS flo
 			continue
 		}
 		for _, ob := range j.rep.Obligations {
-			if !strings.HasPrefix(ob.Kind, "frame.") && ob.Kind != "vacuity" {
+			own := (strings.HasPrefix(ob.Kind, "invariant") || ob.Kind == "ensures.fresh") && strings.Contains(ob.Text, "own(")
+			if !strings.HasPrefix(ob.Kind, "frame.") && ob.Kind != "vacuity" && !own {
 				ob.Static = true
 				ob.Status = "skipped"
 			}
@@ -227,7 +232,15 @@ func checkProperty(e *engine.Engine, verif, id, tier string, seed int, loadS flo
 				continue
 			}
 			for _, ob := range j.rep.Obligations {
-				if (len(cfg.OnlyKinds) > 0 && !keep[ob.Kind] && ob.Kind != "vacuity" && (cfg.ExactKinds || !strings.HasPrefix(ob.Kind, "ensures"))) || ign[ob.Name] {
+				keptByText := false
+				if strings.HasPrefix(ob.Kind, "invariant") || ob.Kind == "ensures.fresh" {
+					for _, kt := range cfg.KeepText {
+						if strings.Contains(ob.Text, kt) {
+							keptByText = true
+						}
+					}
+				}
+				if (len(cfg.OnlyKinds) > 0 && !keep[ob.Kind] && !keptByText && ob.Kind != "vacuity" && (cfg.ExactKinds || !strings.HasPrefix(ob.Kind, "ensures"))) || ign[ob.Name] {
 					ob.Static = true
 					ob.Status = "skipped"
 				}
